@@ -70,12 +70,20 @@ pub fn gen_case(r: &mut Rng) -> BCase {
         1 => 60,
         _ => 15,
     };
-    let n = 1 + r.usize_below(cap);
+    // one forest in sixteen is (nearly) a single chain of 50..250 bookmarks: nesting up to the 256 levels that the
+    // outline walker follows
+    let chain = r.chance(1, 16);
+    // (a quarter of the chains are pure and end exactly at, or one level above, the deepest level that is followed)
+    let pure = chain && r.chance(1, 4);
+    let n = if pure { 256 + r.usize_below(2) } else if chain { 50 + r.usize_below(201) } else { 1 + r.usize_below(cap) };
     let deep = r.chance(1, 4);
     let mut used = HashSet::new();
     let mut nodes: Vec<BNode> = vec![];
     for i in 0..n {
-        let parent = if i == 0 || r.chance(1, 4) {
+        let parent = if chain && i > 0 {
+            // now and then a second child of the grandparent instead of a deeper level
+            Some(if !pure && i > 1 && r.chance(1, 12) { i - 2 } else { i - 1 })
+        } else if i == 0 || r.chance(1, 4) {
             None
         } else if deep {
             Some(i - 1 - r.usize_below((i).min(2)))
@@ -357,8 +365,8 @@ pub fn run(cfg: &RunCfg) -> (PropMeta, ShardOut, Map<String, Value>) {
     });
     let meta = PropMeta {
         level: "exploration",
-        rule: "random bookmark forests (1..60 bookmarks, random or chain-like parent choice so depth reaches ~60, children attached in any order, distinct titles drawn from ASCII / BMP / astral / whole Unicode range incl. the empty title, any target page, zero-page parents, in a third of the cases 1-3 object numbers reserved with new_object_id() before and filled in after build_outline) over documents with 1..12 pages and both xref formats; pipeline add_bookmark -> adjust_zero_pages -> build_outline -> catalog /Outlines -> get_toc, and again after save_to + load_mem. Oracle: forest model (fresh ids, First/Last/Next/Prev/Parent lists in insertion order, decoded titles, destination pages with the documented zero-page fix-up, pre-order (title, level, page number)). distinct = distinct forests with more than one bookmark.".into(),
-        assumptions: vec!["titles are pairwise distinct (get_toc keys entries by title, as the quantifier states)".into(), "leaf bookmarks always name a real page; only parents may be zero-page".into()],
+        rule: "random bookmark forests (1..60 bookmarks with random or chain-like parent choice; one forest in sixteen a chain of 50..257 bookmarks, i.e. nesting up to the deepest level the outline walker follows; children attached in any order, distinct titles drawn from ASCII / BMP / astral / whole Unicode range incl. the empty title, any target page, zero-page parents, in a third of the cases 1-3 object numbers reserved with new_object_id() before and filled in after build_outline) over documents with 1..12 pages and both xref formats; pipeline add_bookmark -> adjust_zero_pages -> build_outline -> catalog /Outlines -> get_toc, and again after save_to + load_mem. Oracle: forest model (fresh ids, First/Last/Next/Prev/Parent lists in insertion order, decoded titles, destination pages with the documented zero-page fix-up, pre-order (title, level, page number)). distinct = distinct forests with more than one bookmark.".into(),
+        assumptions: vec!["titles are pairwise distinct (get_toc keys entries by title, as the quantifier states)".into(), "leaf bookmarks always name a real page; only parents may be zero-page".into(), "forests nest at most 257 levels, the deepest the outline walker follows (its recursion bound); deeper items are cut off by design".into()],
         exhaustive: false,
         min_distinct: 500,
     };
